@@ -181,6 +181,11 @@ func runHistory(s *site, rs reqSpec, ops []int, keys *[]string) (string, string)
 					return "memo/authenticator-consulted-again", at + ": an accepting authenticator was consulted again although the principal is held by the request"
 				}
 			} else {
+				// nothing is held (first asked, or after ResetAuth): the answer is the one this request
+				// gets when asked for the first time - derived from the request alone
+				if wp, we := firstAuthorize(s, rs); !reflect.DeepEqual(p, wp) || errStr(err) != we {
+					return "history/authorize-differs-from-first-evaluation", fmt.Sprintf("%s: nothing held for the request, Authorize answered (%v, %s); asked first on a fresh request it answers (%v, %s)", at, p, errStr(err), wp, we)
+				}
 				if err == nil && p != nil {
 					m.princ = p
 				}
@@ -242,6 +247,28 @@ func runHistory(s *site, rs reqSpec, ops []int, keys *[]string) (string, string)
 		}
 	}
 	return "", ""
+}
+
+// firstAuthorize is what Authorize answers when it is the first stage asked on a fresh copy of the
+// request (computed once per site and request kind).
+func firstAuthorize(s *site, rs reqSpec) (interface{}, string) {
+	if s.firstAuth == nil {
+		s.firstAuth = map[string][2]interface{}{}
+	}
+	if v, ok := s.firstAuth[rs.Name]; ok {
+		return v[0], v[1].(string)
+	}
+	req := rs.build()
+	route, r2, ok := s.ctx.RouteInfo(req)
+	var p interface{}
+	es := "<no route>"
+	if ok && route != nil {
+		var err error
+		p, _, err = s.ctx.Authorize(r2, route)
+		es = errStr(err)
+	}
+	s.firstAuth[rs.Name] = [2]interface{}{p, es}
+	return p, es
 }
 
 func names(ops []int) []string {
